@@ -537,6 +537,18 @@ func extractReturns(repo, gen, facts string) {
 		settersGuarded = settersGuarded && ok
 	}
 	h["typedBucketSettersWriteOnlyIfProceedWithSet"] = settersGuarded
+	// errors raised inside the typed-bucket setters while a map value is persisted travel up to the entity bucket
+	putList, putMap, setM := needH("TypedBucket", "PutList"), needH("TypedBucket", "PutMap"), needH("TypedBucket", "setMarshaled")
+	putListText := c.text(putList.Body)
+	h["putListSizeMarkerKeepsElementError"] = strings.Contains(putListText, "listBucket.setMarshaled(string(key), val, true) }") &&
+		strings.Contains(putListText, "} listBucket.SetInt32(ListSizeKeyName, int32(len(value)), nil) bucket.Err = listBucket.Err }")
+	h["putMapHandsUpNestedError"] = strings.Contains(c.text(putMap.Body), "for key, val := range value { tagsBucket.setMarshaled(key, val, allowNested) } bucket.Err = tagsBucket.Err }")
+	setMText := c.text(setM.Body)
+	h["setMarshaledRejectsUnknownTypesAndStopsOnError"] = strings.HasPrefix(setMText, "{ if bucket.Err != nil { return bucket }") &&
+		strings.Contains(setMText, "default: bucket.SetError(errors.Errorf(\"unsupported type %v in map\", reflect.TypeOf(val))) }") &&
+		strings.Contains(setMText, "case []interface{}: if allowNested { bucket.PutList(name, val, nil) }") &&
+		strings.Contains(setMText, "case map[string]interface{}: if allowNested { bucket.PutMap(name, val, nil, true) }")
+	h["persistContextSetMapAllowsNesting"] = c.text(needH("PersistContext", "SetMap").Body) == "{ ctx.Bucket.PutMap(field, value, ctx.FieldChecker, true) }"
 	h["updateBeforeUpdateThenPersistThenAfterUpdate"] = ordered(update,
 		"indexingContext := store.newIndexingContext(false, ctx, entity.GetId(), bucket)",
 		"indexingContext.ProcessBeforeUpdate()",
